@@ -106,6 +106,7 @@ def run(ctx):
         else:
             if res["load"] != "ok" or res["ops"][0] != "ok":
                 ctx.fail("acyclic model rejected: %s %s" % (res["load"], res["ops"]), sc.describe())
+    eems_cycles(ctx, model)
     api_extension(ctx)
     return ctx.finish(
         rule="scenarios = (digraph on 1..3 commands enumerated completely [thorough: 4 sampled 1500], random digraphs on 4-6 commands with optional "
@@ -114,6 +115,62 @@ def run(ctx):
         explanation="theorems in Props/C14.lean (the cycle check is sound and complete for the model's reference graph and precedes execution) hold for "
                     "the model; real Program.run is compared with the model on every scenario under a lowered recursion limit; rejection/no-execution "
                     "oracles run on the implementation")
+
+
+def eems_cycles(ctx, model):
+    """cycles made of the built-in EEMS commands (well-typed rings of Copy, Normalize, FuzzyNot, CvtToFuzzy/CvtFromFuzzy), with and without
+    consumers outside the ring, next to a valid reader: rejected with RecursiveModelStructure before anything runs"""
+    import os
+    rng = ctx.rng
+    tmp = common.tmpdir("mpv_c14_")
+    open(os.path.join(tmp, "in.csv"), "w").write("a,b\n1,2\n3,4\n")
+    libs = progrun.EEMS_LIBS
+    base, classes = progrun.library_classes(libs)
+    classes = sorted(classes, key=lambda c: c.name)
+    scs = []
+    for _ in range(ctx.budget(30, 800)):
+        k = rng.choice([1, 2, 2, 3, 4])
+        ring_kind = rng.choice(["Copy", "Copy", "Normalize", "FuzzyNot", "Cvt"])
+        if ring_kind == "Cvt" and k % 2:
+            k += 1
+        names = ["m%d" % i for i in range(k)]
+        cmds = [("Rd", "EEMSRead", [("InFileName", "in.csv"), ("InFieldName", "a")])]
+        fuzzy = []
+        for i, nm in enumerate(names):
+            src = Name(names[(i + 1) % k])
+            if ring_kind == "Cvt":
+                if i % 2 == 0:
+                    cmds.append((nm, "CvtToFuzzy", [("InFieldName", src)])); fuzzy.append(True)
+                else:
+                    cmds.append((nm, "CvtFromFuzzy", [("InFieldName", src), ("TrueThreshold", 1), ("FalseThreshold", 0)])); fuzzy.append(False)
+            else:
+                cmds.append((nm, ring_kind, [("InFieldName", src)])); fuzzy.append(ring_kind == "FuzzyNot")
+        for j in range(rng.randrange(0, 3)):
+            i = rng.randrange(k)
+            m = Name(names[i])
+            if fuzzy[i]:
+                cons = rng.choice([("FuzzyOr", [("InFieldNames", [m, m])]), ("FuzzyNot", [("InFieldName", m)]), ("Copy", [("InFieldName", m)])])
+            elif ring_kind == "Copy":
+                # a Copy's fuzziness is not declared: it may feed fuzzy-free inputs
+                cons = rng.choice([("Sum", [("InFieldNames", [m, Name("Rd")])]), ("AMinusB", [("A", m), ("B", Name("Rd"))]), ("CvtToFuzzy", [("InFieldName", m)]),
+                                   ("Copy", [("InFieldName", m)]), ("EEMSWrite", [("OutFileName", "o.csv"), ("OutFieldNames", [m])])])
+            else:
+                cons = rng.choice([("Sum", [("InFieldNames", [m, Name("Rd")])]), ("Copy", [("InFieldName", m)]), ("Normalize", [("InFieldName", m)])])
+            cmds.append(("t%d" % j, cons[0], cons[1]))
+        scs.append(Scenario(graphs.shuffled(rng, cmds), wd=tmp, libs=libs))
+    for sc, ans in zip(scs, model.ask([sc.protocol(classes) for sc in scs])):
+        res = progrun.run_impl(sc, recursion_limit=600)
+        ctx.case(sc.source, sample={"source": sc.source[:400], "cyclic": True, "impl": progrun.impl_text(res)[:200], "model": ans[:200]})
+        ctx.count("eems_cycles")
+        d = progrun.compare(res, ans)
+        if d:
+            ctx.disagree("run:eems-cycles", sc.describe(), d[0][:500], d[1][:500])
+        o = res["load"] if res["load"] != "ok" else res["ops"][0]
+        if not o.startswith("mp:RecursiveModelStructure"):
+            ctx.fail("cyclic model of built-in commands: run() %s (executed %r) instead of raising RecursiveModelStructure" % (
+                "returned normally" if o == "ok" else "raised " + o, [e[1:] for e in res["log"] if e[0] == "+"]), sc.describe())
+        elif res["log"] or os.path.exists(os.path.join(tmp, "o.csv")):
+            ctx.fail("cyclic model of built-in commands rejected only after executing %r" % res["log"], sc.describe())
 
 
 def api_extension(ctx):
